@@ -73,12 +73,13 @@ func verifH_C38_match() {
 }
 
 // H-C38-fold: FoldExpression is idempotent, never longer than its input and keeps the LIKE language (checked against
-// the reference on every subject within the bound).
+// the reference on every subject within the bound; the subject alphabet contains '%' and '\\' themselves, which is
+// what an escaped wildcard in the pattern has to match literally).
 func verifH_C38_fold() {
 	verifPanicIsViolation()
 	verifUnwind(64)
-	pat := verifString("pat", "a_%\\", verifBoundPat)
-	str := verifString("str", "ab", verifBoundStr)
+	pat := verifString("pat", "a_%\\", verifBoundFoldPat)
+	str := verifString("str", "a%\\", verifBoundStr)
 	folded := FoldExpression(pat)
 	verifAssert(len(folded) <= len(pat), "never-longer")
 	verifAssert(FoldExpression(folded) == folded, "idempotent")
